@@ -45,6 +45,35 @@ def _targets(t: ast.AST) -> List[Tuple[str, bool]]:
     return []
 
 
+def target_path(t: ast.AST, name: str) -> Optional[List[int]]:
+    """Index path of `name` inside an unpacking target: `k, (a, b)` -> b is [1, 1]; [] for a plain name; None if absent / starred."""
+    if isinstance(t, ast.Name):
+        return [] if t.id == name else None
+    if isinstance(t, (ast.Tuple, ast.List)):
+        for i, e in enumerate(t.elts):
+            if isinstance(e, ast.Starred):
+                if any(isinstance(x, ast.Name) and x.id == name for x in ast.walk(e)):
+                    return None
+                continue
+            p = target_path(e, name)
+            if p is not None:
+                return [i] + p
+    return None
+
+
+def item_atom(it_key: str, path: Optional[List[int]], flat_tag: str = "") -> str:
+    """Value id of a loop variable: `item∈IT` for a plain target, `item#i∈unpack(IT)` for the i-th element of an unpacked item and
+    `(item#i∈unpack(IT))[j]` for an element nested deeper (the same id `x = item_i; x[j]` has)."""
+    if path is None:
+        return f"item{flat_tag}∈unpack({it_key})"
+    if not path:
+        return f"item∈{it_key}"
+    k = f"item#{path[0]}∈unpack({it_key})"
+    for j in path[1:]:
+        k = f"({k})[{j}]"
+    return k
+
+
 class ReachingDefs:
     def __init__(self, f: FuncInfo, cfg: CFG):
         self.f = f
@@ -437,7 +466,9 @@ class Sym:
                 # named by position in the loop target, not by the variable's name (a renamed loop variable is the same value)
                 pos = [n for n, _ in _targets(d.ast.target)]
                 tag = f"#{pos.index(e.id)}" if e.id in pos and len(pos) > 1 else ""
-                return Poly.atom(f"item{tag}∈{it}") if d.value is not None else Poly.atom(f"item{tag}∈unpack({it})")
+                if d.value is not None:
+                    return Poly.atom(f"item{tag}∈{it}")
+                return Poly.atom(item_atom(it, target_path(d.ast.target, e.id), tag))
             if d.kind in ("import", "def"):
                 return Poly.atom(e.id)
             if d.kind == "unpack" and isinstance(d.ast, ast.Assign) and len(d.ast.targets) == 1:
